@@ -4,5 +4,7 @@ CONSTANTS N = 2
           MaxTicks = 3
           MaxEdits = 1
           SortInflight = TRUE
+          Pats = {0, 1, 2, 3}
+          Appendable = {0, 1, 2, 3}
 INVARIANTS NoBadDeref SnapshotSafe SnapshotNoDup SnapshotScores SnapshotOrder SnapshotCount RestartIsolation NoOtherLostWakeup Converged RunningFalseMeansCaughtUp
 CHECK_DEADLOCK FALSE
